@@ -11,7 +11,8 @@ RULE = ('in-memory PseudoNetCDFFile with one coordinate (2..7 values; ascending/
         'integer spacing times 2^ue; dtype f8/f4/i4) and none / 1-D (n+1) / n x 2 bounds variable (found through <dim>_bounds, '
         '<dim>_bnds or the bounds attribute); every method x bounds x clean x left/right(None|nan); query values at centres, edges, '
         'midpoints, one unit inside/outside every edge, outside the domain (1-D, 2-D and scalar val); the same through time2idx with '
-        'datetimes. "exact" stream (dyadic, evaluated in Coq against Model/Val2idx.v: cells, warning, exception, coordinate after the '
+        'datetimes that are naive, UTC-aware or timezone-aware with non-zero offsets (-05:00, +05:30, -09:30, +13:00, ...: the true instant '
+        'is computed in exact integer microseconds and both date2num and the looked-up cells are compared with it). "exact" stream (dyadic, evaluated in Coq against Model/Val2idx.v: cells, warning, exception, coordinate after the '
         'call); "float" stream: queries nextafter() just inside/outside every edge on realistic grids, decided by the rational oracle '
         'in Python only; malformed stream: unknown option words, non-monotonic / repeated coordinates. Non-trivial = some query lands in '
         'a cell other than 0 or is masked.')
@@ -27,6 +28,7 @@ ASSUMPTIONS = ['theorems are over exact integers in a dyadic unit; binary64 roun
                'them the corpus cases corpus/C16/*.json fail and the check reports a violation']
 
 METHODS = ['nearest', 'bounds', 'exact']
+TZ_OFFSETS = [-300, 330, -570, 780, 60, -720, 345]      # minutes east of UTC: -05:00, +05:30, -09:30, +13:00, ...
 TUNITS = {'hours': 3600 * 10 ** 6, 'minutes': 60 * 10 ** 6, 'seconds': 10 ** 6, 'days': 86400 * 10 ** 6}
 
 
@@ -126,7 +128,7 @@ def gen(rng, n, tier):
         ue = rng.randint(0, 3) if dtype == 'i4' else rng.randint(-20, 10)
         front = 'val2idx'
         tunit = None
-        if rng.random() < 0.12:
+        if rng.random() < 0.2:
             front, dtype = 'time2idx', 'f8'
             tunit = rng.choice(sorted(TUNITS))
             ue = rng.randint(-2, 2) if tunit != 'seconds' else rng.randint(0, 6)
@@ -146,9 +148,19 @@ def gen(rng, n, tier):
         vshape = rng.choice(['1d', '1d', '1d', 'scalar', '2d'])
         if vshape == 'scalar':
             xs = xs[:1]
-        case = dict(kind='%s-%s-%s-%s%s' % (direction, rep, method, style, '-t' if front == 'time2idx' else ''),
+        tzmin, tztag = None, ''
+        if front == 'time2idx':
+            # query datetimes: naive, UTC-aware, or aware with non-zero UTC offsets (the instant is the same)
+            tzkind = rng.choice(['naive', 'utc', 'offset', 'offset', 'offset'])
+            if tzkind == 'utc':
+                tzmin = [0] * len(xs)
+            elif tzkind == 'offset':
+                tzmin = [rng.choice(TZ_OFFSETS) for _ in xs]
+            tztag = '-t' + tzkind
+        case = dict(kind='%s-%s-%s-%s%s' % (direction, rep, method, style, tztag),
                     ue=ue, cs=cs, dtype=dtype, rep=rep, es=(es if rep != 'none' else None), bkey=bkey, method=method,
-                    bounds=bounds, clean=clean, left=left, right=right, xs=xs, vshape=vshape, front=front, tunit=tunit)
+                    bounds=bounds, clean=clean, left=left, right=right, xs=xs, vshape=vshape, front=front, tunit=tunit,
+                    tzmin=tzmin)
         out.append(case)
     return out
 
@@ -288,6 +300,12 @@ def impl(case):
             if micro.denominator != 1:
                 raise AssertionError('query not a whole microsecond')
             q.append(ref + datetime.timedelta(microseconds=int(micro)))
+        tzmin = case.get('tzmin')
+        if tzmin is not None:
+            # the same instants, written in a zone with the given offset
+            q = [t.replace(tzinfo=datetime.timezone.utc).astimezone(datetime.timezone(datetime.timedelta(minutes=m)))
+                 for t, m in zip(q, tzmin)]
+            obs['asked'] = [t.isoformat() for t in q]
         arg = np.array(q)
         nums = np.asarray(f.date2num(arg, timekey='time'), dtype='d')
         obs['nums'] = [float(v).hex() for v in nums.reshape(-1)]
@@ -494,9 +512,11 @@ def shrink(case):
                 yield dict(case, xs_hex=xs[:k] + xs[k + 1:])
         return
     xs = case['xs']
+    tzm = case.get('tzmin')
     if len(xs) > 1:
         for k in range(len(xs)):
-            yield dict(case, xs=xs[:k] + xs[k + 1:], vshape='1d')
+            yield dict(case, xs=xs[:k] + xs[k + 1:], vshape='1d',
+                       tzmin=(None if tzm is None else tzm[:k] + tzm[k + 1:]))
     n = len(case['cs'])
     if n > 2 and not case['kind'].startswith('malformed'):
         for k in (0, n - 1):
@@ -508,7 +528,7 @@ def shrink(case):
     if case.get('vshape') != '1d':
         yield dict(case, vshape='1d')
     if case.get('front') == 'time2idx':
-        yield dict(case, front='val2idx', tunit=None)
+        yield dict(case, front='val2idx', tunit=None, tzmin=None)
 
 
 LEVEL_TEXT = ('Theorems (Props/C16.v, all closed under the global context) over an exact Gallina model of the repaired val2idx (options, three '
